@@ -54,7 +54,7 @@ func xzWriteExec(p XZWCase, data []byte) (sink []byte, calls []callRes, verr err
 	}
 	var sb sinkBuf
 	pan = core.Guard(func() {
-		w, err := p.Cfg.cfg().NewWriter(&sb)
+		w, err := p.Cfg.build().NewWriter(&sb)
 		calls = append(calls, callRes{Call: "NewWriter", Err: err, Sink: len(sb.b)})
 		if err != nil {
 			return
@@ -600,6 +600,47 @@ func c01Cases(r *core.Run, prop string) []XZWCase {
 			for m := 0; m < 2; m++ {
 				add(XZWCase{Cfg: XZCfg{DictCap: 4096, Matcher: m}, Shape: []Seg{{K: "A", B: b, N: n}, {K: "L", Lit: []byte("x")}, tail}})
 				add(XZWCase{Cfg: XZCfg{DictCap: 4096, Matcher: m, Props: true, LC: 0, LP: 2, PB: 0}, Shape: []Seg{{K: "L", Lit: []byte("q")}, {K: "A", B: b, N: n}, {K: "L", Lit: []byte("xy")}, {K: "A", B: b, N: 5}}})
+			}
+		}
+	}
+	// (h2) the same run lengths (also with periods 2 and 3) between two stretches of text: the
+	// coder states entered after literal -> match(273) -> short rep meet probabilities that the
+	// text before has already trained, so a wrong state transition changes the code
+	for _, n := range []int{272, 273, 274, 275, 276, 277, 278, 546, 547, 548, 549, 550, 551} {
+		for _, per := range []string{"a", "\x00", "ab", "abc"} {
+			run := bytes.Repeat([]byte(per), n/len(per)+1)[:n]
+			for m := 0; m < 2; m++ {
+				add(XZWCase{Cfg: XZCfg{DictCap: 4096, Matcher: m}, Shape: []Seg{{K: "T", Seed: 7, N: 3000}, lit(run), {K: "T", Seed: 8, N: 2000}}})
+				if per != "ab" {
+					add(XZWCase{Cfg: XZCfg{DictCap: 4096, Matcher: m, Props: true, LC: 0, LP: 2, PB: 1}, Shape: []Seg{{K: "T", Seed: 7, N: 3000}, lit(run), {K: "T", Seed: 9, N: 1000}, lit(run[:n-1]), {K: "T", Seed: 8, N: 1000}}})
+				}
+			}
+		}
+	}
+	// (k) configuration histories: one WriterConfig variable is verified with configuration A (Verify
+	// fills defaults in place), then set to configuration B, then used; all ordered pairs of a menu.
+	// The stream must be what B alone produces (dictionary byte, properties, block size, check).
+	{
+		cm := []XZCfg{
+			{DictCap: 4096},
+			{DictCap: 65536, Check: 1},
+			{DictCap: 1 << 20, Props: true, LC: 0, LP: 0, PB: 0},
+			{DictCap: 6145, Props: true, LC: 1, LP: 2, PB: 3, BlockSize: 3000},
+			{DictCap: 4096, BufSize: 273, Check: 10, Matcher: 1},
+			{DictCap: 40000, NoCheck: true, BlockSize: 70000},
+			{},
+		}
+		far := []Seg{{K: "T", Seed: 41, N: 45000}, {K: "K", N: 39000}, {K: "R", Seed: 41, N: 500}}
+		for i := range cm {
+			for j := range cm {
+				if i == j {
+					continue
+				}
+				c := cm[j]
+				pre := cm[i]
+				c.Pre = &pre
+				add(XZWCase{Cfg: c, Shape: far})
+				add(XZWCase{Cfg: c, Shape: []Seg{{K: "T", Seed: 42, N: 7000}}})
 			}
 		}
 	}
